@@ -160,6 +160,7 @@ pub fn run(args: &Args) {
             cfg.fastload = true;
             let mut emu = cfg.build();
             out.ev(json!({"ev":"reset","m": if m128 {128} else {48},"path":path}));
+            let mut szx_cycles: i64 = -1;
             poke_bytes(&mut emu, 0x8010, &[0xED, 0x79, 0x77]);
             // an old picture first, so that a path that delivers nothing shows
             for o in 0..6912u16 {
@@ -262,13 +263,21 @@ pub fn run(args: &Args) {
                     let d = desc_with_screen(true, &scr, shadow, &mut r);
                     emu.load_snapshot(Snapshot::Sna(VAsset::new(sna128(&d)))).unwrap();
                 }
+                // (SZX files say at which T-state of its frame the machine was saved; the receiver is somewhere in the middle
+                // of its own frame when the file arrives, as at a breakpoint stop)
                 "szx48" => {
                     let d = desc_with_screen(false, &scr, false, &mut r);
-                    emu.load_snapshot(Snapshot::Szx(VAsset::new(szx(&d, &SzxOpts::default())))).unwrap();
+                    szx_cycles = r.below(FRAME_48 as u64 - 1000) as i64;
+                    emu.verif_wait(r.below(FRAME_48 as u64 - 1000) as usize);
+                    emu.load_snapshot(Snapshot::Szx(VAsset::new(szx(&d, &SzxOpts { cycles: szx_cycles as u32, ..Default::default() })))).unwrap();
                 }
                 "szx128_compressed" | "szx128_shadow" => {
                     let d = desc_with_screen(true, &scr, shadow, &mut r);
-                    let o = SzxOpts { compressed: true, shuffle: r.next() | 1, junk_chunks: true, ..Default::default() };
+                    if !shadow {
+                        szx_cycles = r.below(FRAME_128 as u64 - 1000) as i64;
+                        emu.verif_wait(r.below(FRAME_128 as u64 - 1000) as usize);
+                    }
+                    let o = SzxOpts { compressed: true, shuffle: r.next() | 1, junk_chunks: true, cycles: szx_cycles.max(0) as u32, ..Default::default() };
                     emu.load_snapshot(Snapshot::Szx(VAsset::new(szx(&d, &o)))).unwrap();
                 }
                 "scr48" | "scr128" => {
@@ -307,6 +316,13 @@ pub fn run(args: &Args) {
                 (0..6912u16).map(|o| emu.peek(0x4000 + o)).collect()
             };
             out.ev(json!({"ev":"screen","bytes":visible,"delivered_equal": visible == scr}));
+            if szx_cycles >= 0 {
+                // the frame the snapshot continues: whatever the beam reaches after the file's own moment shows the file's picture
+                emu.set_debug_interface(VDebug::Never);
+                emu.set_speed(rustzx_core::EmulationMode::FrameCount(1));
+                emu.emulate_frames(Duration::from_secs(1000)).unwrap();
+                out.ev(json!({"ev":"pframe","from_t":szx_cycles,"canvas":canvas(&emu)}));
+            }
             // one path per round is watched over a whole flash period
             let n = if pi as u64 == round % paths.len() as u64 { long } else { frames };
             run_frames(&mut emu, &mut out, n, if n > 8 { 5 } else { 1 });
